@@ -470,7 +470,7 @@ def check_fragment(rep, prog):
             not any(isinstance(x, (ast.Break, ast.Continue, ast.Return)) for s in body for x in ast.walk(s))
         det = 'one unconditional append per position after `while p > end` has advanced (end, chunk_index, chunk list) together'
     outer = [n for n in own_nodes(fn) if isinstance(n, ast.For) and ast.unparse(n.iter) == 'ndd.keys()']
-    ok0 = len(outer) == 1 and [ast.unparse(s) for s in outer[0].body[:4]] == ['positions = sorted(ndd[chrname])', 'end = chunk_size', 'chunk_index = 0', 'chunks_dict[chrname].append([])']
+    ok0 = len(outer) == 1 and sorted(ast.unparse(s) for s in outer[0].body[:4]) == sorted(['positions = sorted(ndd[chrname])', 'end = chunk_size', 'chunk_index = 0', 'chunks_dict[chrname].append([])'])
     rep.ob('R-PAIR', 'fragment_data_dict chunk assignment', ok1 and ok0, det or 'position loop not recognised', m.rel, fn.lineno,
            what='every SNP lands in exactly one chunk; the chunk index always points at the last chunk created; positions are visited in sorted order')
     okr = has(t, 'for (chrname, chunks) in chunks_dict.items():') and has(t, 'for pos_list in chunks:') and has(t, 'new_dds.append({})') and \
